@@ -401,5 +401,40 @@ func c05Worker(c *core.Collector, x *Ctx) {
 		}
 		c.Count("slow_transfers_replacing_an_abandoned_one", int64(nslow))
 	}
+	// a WIDE transfer that pauses: 520 / 600 / 1100 packets, the first 5..40 sent, 5.6 s (virtual) of silence, a heartbeat (the
+	// server now owes a re-request that names more packets than one message body can hold), then the rest: the message is
+	// delivered, whole (whatever became of the re-request, the transfer itself is healthy)
+	{
+		nwide := 0
+		for wi, N := range []int{520, 600, 1100, 512} {
+			for v := 0; v < 2; v++ {
+				r := core.NewRand(c.Seed, "c05wide", uint64(wi*2+v))
+				id := core.Pick(r, []uint16{0x0801, 0x0704})
+				nb := c05Bodies(r, N, v)
+				first := 1 + r.Intn(40)
+				if N == 512 {
+					first = 1 // exactly 511 missing
+				}
+				var frames [][]byte
+				var ops []hookOp
+				feed := func(f []byte) {
+					frames = append(frames, f)
+					ops = append(ops, hookOp{Feed: core.Hex(f)})
+				}
+				for k := 1; k <= first; k++ {
+					feed(hookFrame(v == 1, id, uint16(200+k), true, uint16(N), uint16(k), nb[k-1]))
+				}
+				ops = append(ops, hookOp{AgeMs: 5600})
+				feed(hookFrame(v == 1, 0x0002, 7, false, 0, 0, nil))
+				for k := first + 1; k <= N; k++ {
+					feed(hookFrame(v == 1, id, uint16(200+k), true, uint16(N), uint16(k), nb[k-1]))
+				}
+				sc := &hookScenario{Kind: "hook", Gen: "wide transfer that pauses with more than 510 packets missing", Frames: hexAll(frames), Ops: ops}
+				hookEval(c, sc, cats, true)
+				nwide++
+			}
+		}
+		c.Count("wide_transfers_paused_with_more_than_510_packets_missing", int64(nwide))
+	}
 	c.Floor("orders_enumerated", 100)
 }
